@@ -52,8 +52,16 @@ pub enum Mode {
 }
 
 impl Case {
+    /// odd cases are autoescaped (`.html`), even ones are not
+    pub fn ext(&self) -> &'static str {
+        if self.id % 2 == 1 { ".html" } else { "" }
+    }
     pub fn name(&self) -> String {
-        format!("t{}", self.id)
+        format!("t{}{}", self.id, self.ext())
+    }
+    /// name of an auxiliary template of the case (same autoescape setting)
+    pub fn aux(&self, tag: &str) -> String {
+        format!("t{}_{tag}{}", self.id, self.ext())
     }
     pub fn templates(&self) -> Vec<(String, String)> {
         let n = self.name();
@@ -61,13 +69,13 @@ impl Case {
         let body = raw_body
             .replace("@@HI@@", &format!("hi{}", self.id))
             .replace("@@HB@@", &format!("hb{}", self.id))
-            .replace("@@I@@", &format!("{n}_i"));
+            .replace("@@I@@", &self.aux("i"));
         let mut out = self.place_templates(&n, body);
         if raw_body.contains("@@HI@@") || raw_body.contains("@@HB@@") {
             out.insert(
                 0,
                 (
-                    format!("{n}_c"),
+                    self.aux("c"),
                     format!(
                         "{{% component hi{id}(v=1, w=\"d\") %}}[{{{{ v }}}}{{{{ w.b }}}}]{{% endcomponent hi{id} %}}{{% component hb{id}(v=1) %}}<{{{{ v }}}}{{{{ body }}}}>{{% endcomponent hb{id} %}}",
                         id = self.id
@@ -76,7 +84,7 @@ impl Case {
             );
         }
         if raw_body.contains("@@I@@") {
-            out.insert(0, (format!("{n}_i"), "i{{ a.b }}{% if b %}{{ b.b.c }}{% endif %}".to_string()));
+            out.insert(0, (self.aux("i"), "i{{ a.b }}{% if b %}{{ b.b.c }}{% endif %}".to_string()));
         }
         out
     }
@@ -86,8 +94,8 @@ impl Case {
             Place::Body => vec![(n, body)],
             Place::Block => vec![(n, format!("<{{% block k %}}{body}{{% endblock %}}>"))],
             Place::ChildSuper => vec![
-                (format!("{n}_p"), "A{% block k %}[{{ b.c }}]{% endblock k %}B{{ a.b }}".to_string()),
-                (n.clone(), format!("{{% extends \"{n}_p\" %}}{{% block k %}}{body}{{{{ super() }}}}{{% endblock %}}")),
+                (self.aux("p"), "A{% block k %}[{{ b.c }}{{ b.b.c.b }}]{% endblock k %}B{{ a.b }}".to_string()),
+                (n.clone(), format!("{{% extends \"{}\" %}}{{% block k %}}{body}{{{{ super() }}}}{{% endblock %}}", self.aux("p"))),
             ],
             Place::Component => vec![(
                 n.clone(),
@@ -104,8 +112,8 @@ impl Case {
                 ),
             )],
             Place::Include => vec![
-                (format!("{n}_inc"), body),
-                (n.clone(), format!("x{{% include \"{n}_inc\" %}}{{{{ a.b }}}}")),
+                (self.aux("inc"), body),
+                (n.clone(), format!("x{{% include \"{}\" %}}{{{{ a.b }}}}", self.aux("inc"))),
             ],
             Place::FilterSection => vec![(n, format!("{{% filter upper %}}{body}{{% endfilter %}}"))],
             Place::SetBlock => vec![(n, format!("{{% set w %}}{body}{{% endset %}}<{{{{ w }}}}>"))],
@@ -133,7 +141,7 @@ pub fn path(rng: &mut Rng, loop_vars: &[&str]) -> String {
     } else {
         rng.pick(&ROOTS).to_string()
     };
-    match rng.below(16) {
+    match rng.below(18) {
         0..=2 => root,
         3..=5 => format!("{root}.b"),
         6..=7 => format!("{root}.b.c"),
@@ -151,11 +159,19 @@ pub fn path(rng: &mut Rng, loop_vars: &[&str]) -> String {
             4 => "none".into(),
             _ => "__tera_context.a.b".into(),
         },
-        _ => format!("{root}.b.c.b"),
+        15 | 16 => format!("{root}.b.c.b"),
+        // the magic dump variable, alone and with attribute access (never fused)
+        _ => match rng.below(5) {
+            0 => "__tera_context".into(),
+            1 => format!("__tera_context.{root}"),
+            2 => format!("__tera_context.{root}.b"),
+            3 => format!("__tera_context.{root}.b.c.b"),
+            _ => format!("__tera_context.{root}?.b"),
+        },
     }
 }
 
-pub const N_SHAPES: usize = 52;
+pub const N_SHAPES: usize = 54;
 
 /// Every control-flow / short-circuit shape, with variable paths right before and after each
 /// jump and each jump target. `in_loop`: `break` / `continue` are legal here.
@@ -238,6 +254,11 @@ pub fn shape(k: usize, rng: &mut Rng, loop_vars: &[&str], in_loop: bool) -> (&'s
         49 => ("map_lit", format!("{{{{ {{\"k\": {}, \"l\": {} or {}}} }}}}", p(), p(), p())),
         50 if in_loop => ("break_if", format!("{{% if {} %}}{{% break %}}{{% endif %}}{{{{ {} }}}}", p(), p())),
         51 if in_loop => ("continue_if", format!("{{{{ {} }}}}{{% if {} %}}{{% continue %}}{{% endif %}}{{{{ {} }}}}", p(), p(), p())),
+        52 => (
+            "set_safe_in_map",
+            format!("{{% set m = {{\"k\": {} | safe, \"l\": \"<i>&\" | safe, \"n\": \"<u>&\"}} %}}{{{{ m.k }}}}{{{{ m.l }}}}{{{{ m.n }}}}{{{{ m }}}}", p()),
+        ),
+        53 => ("dump_paths", format!("{{{{ __tera_context.a.b.b }}}}{{% if __tera_context.{} is defined %}}{{{{ __tera_context.b.b.c.b }}}}{{% endif %}}", rng.pick(&ROOTS))),
         _ => ("write", format!("{{{{ {} }}}}", p())),
     }
 }
@@ -365,7 +386,7 @@ pub fn generate_cases(rng: &mut Rng, reps: usize, n_general: usize) -> Vec<Case>
         for k in 0..N_SHAPES {
             for place in PLACES {
                 let in_loop = place == Place::ForBody;
-                if k >= 50 && !in_loop {
+                if (k == 50 || k == 51) && !in_loop {
                     continue;
                 }
                 let lv: Vec<&str> = if in_loop { vec!["x"] } else { vec![] };
@@ -403,7 +424,8 @@ pub fn generate_cases(rng: &mut Rng, reps: usize, n_general: usize) -> Vec<Case>
 
 /// values a variable can be bound to, in the wire form of `wire.rs` (`-` = not bound at all)
 pub const RICH: usize = 27;
-pub const LATTICE: [&str; 28] = [
+pub const RICH_SAFE: usize = 28;
+pub const LATTICE: [&str; 33] = [
     "-",
     "U",
     "N",
@@ -431,9 +453,15 @@ pub const LATTICE: [&str; 28] = [
     "A2 M1 s:62 i64:1 M1 s:62 U",
     "A1 M1 s:62 M1 s:63 i64:3",
     "M2 s:62 M1 s:63 s:3c69 s:63 M1 s:62 B1",
-    // {"b": {"b": "b", "c": {"b": "d"}}, "c": [R1, R1]} with R1 = {"b": {"b": "b", "c": {"b": "d"}}}:
-    // every path form of the generator is defined, `.c` is iterable, `.b.b` is a valid key
-    "M2 s:62 M2 s:62 s:62 s:63 M1 s:62 s:64 s:63 A2 M1 s:62 M2 s:62 s:62 s:63 M1 s:62 s:64 M1 s:62 M2 s:62 s:62 s:63 M1 s:62 s:64",
+    // {"b": {"b": "b", "c": {"b": D}}, "c": [R1, R1]} with R1 = {"b": {"b": "b", "c": {"b": D}}}, D = `<d>&"'`:
+    // every path form of the generator is defined, `.c` is iterable, `.b.b` is a valid key, the
+    // deepest leaf needs escaping (RICH: normal string, RICH_SAFE: marked safe)
+    "M2 s:62 M2 s:62 s:62 s:63 M1 s:62 s:3c643e262227 s:63 A2 M1 s:62 M2 s:62 s:62 s:63 M1 s:62 s:3c643e262227 M1 s:62 M2 s:62 s:62 s:63 M1 s:62 s:3c643e262227",
+    "M2 s:62 M2 s:62 s:62 s:63 M1 s:62 S:3c643e262227 s:63 A2 M1 s:62 M2 s:62 s:62 s:63 M1 s:62 S:3c643e262227 M1 s:62 M2 s:62 s:62 s:63 M1 s:62 S:3c643e262227",
+    "M1 s:62 S:3c623e26",
+    "M1 s:62 s:3c623e26",
+    "M1 s:62 M1 s:63 S:3c623e26",
+    "M1 s:62 M1 s:63 s:3c623e26",
 ];
 
 pub type Ctx = [usize; 3];
@@ -455,11 +483,11 @@ pub fn ctx_json(c: &Ctx) -> serde_json::Value {
 
 pub fn contexts_for(rng: &mut Rng, n_random: usize) -> Vec<Ctx> {
     // fixed: every path of the generator defined / nothing bound / undefined leaves inside maps
-    let mut v: Vec<Ctx> = vec![[RICH, RICH, RICH], [0, 0, 0], [17, 13, 12]];
+    let mut v: Vec<Ctx> = vec![[RICH, RICH, RICH], [0, 0, 0], [17, 13, 12], [RICH_SAFE, RICH_SAFE, RICH_SAFE]];
     for _ in 0..n_random {
         let mut c = [0usize; 3];
         for x in c.iter_mut() {
-            *x = if rng.chance(17, 20) { RICH } else { rng.below(LATTICE.len()) };
+            *x = if rng.chance(17, 20) { if rng.chance(1, 2) { RICH } else { RICH_SAFE } } else { rng.below(LATTICE.len()) };
         }
         v.push(c);
     }
